@@ -1894,7 +1894,13 @@ func (this *decodingTask) decode(res *decodingTaskResult) {
 		return
 	}
 
-	if read > uint64(1)<<34 {
+	// A block is stored in at most max(pre-entropy length, 256 KiB) plus 1/8
+	// bytes (the encoder's own buffer bound): reject a forged length before
+	// allocating memory for it.
+	maxFrameLength := uint64(max(min(max(this.blockLength+this.blockLength/2, 2048), _MAX_BITSTREAM_BLOCK_SIZE), 256*1024))
+	maxFrameLength += (maxFrameLength >> 3) + 64
+
+	if read > uint64(1)<<34 || read > maxFrameLength<<3 {
 		res.err = &IOError{msg: "Invalid block size", code: kanzi.ERR_BLOCK_SIZE}
 		return
 	}
